@@ -116,7 +116,7 @@ PROPS = {
     },
     'C16': {
         'verus': [('local', ['SpanLine::add_properties', 'SpanLine::with_properties', 'LocalSpanStack::add_properties', 'LocalSpanStack::with_properties', 'LocalSpanStack::enter_span', 'LocalSpanStack::add_event'])],
-        'kani': ['disabled_build_is_inert', 'noop_span_never_calls_closures', 'root_without_reporter_is_noop', 'no_local_parent_is_inert'],
+        'kani': ['disabled_build_is_inert', 'noop_span_never_calls_closures', 'root_without_reporter_is_noop', 'no_local_parent_is_inert', 'empty_parent_set'],
         'assumptions': [KANI_ENV, '"no thread": set_reporter is the only spawn site besides flush and both are cfg(feature = "enable") (syntactic)'],
     },
     'C13': {
@@ -138,7 +138,8 @@ PROPS = {
     },
     'C09': {
         'verus': [('spsc', ['Sender::force_send', 'Sender::send', 'bounded']),
-                  ('local', ['SpanQueue::start_span', 'SpanQueue::add_event', 'SpanQueue::add_properties', 'SpanQueue::finish_span', 'SpanLine::start_span', 'LocalSpanStack::enter_span', 'LocalSpanStack::register_span_line'])],
+                  ('local', ['SpanQueue::start_span', 'SpanQueue::add_event', 'SpanQueue::add_properties', 'SpanQueue::finish_span', 'SpanLine::start_span', 'LocalSpanStack::enter_span', 'LocalSpanStack::register_span_line']),
+                  ('coll', ['amend_span'])],
         'kani': [],
         'assumptions': [RTRB, TLS],
     },
